@@ -14,7 +14,7 @@ open Pyx.Sql
     an attribute of the referring class and a KEPT attribute of the referred class -/
 def EndPairOk (d : ClassDiagram) (comp : Option Nat) (drv : Bool) (rgo rto : Nat) (refs : List Ref) : Prop :=
   ∃ rc tc, findClass d rgo = some rc ∧ findClass d rto = some tc ∧
-    inScope d.containers comp rc.parent = true ∧ inScope d.containers comp tc.parent = true ∧
+    inScope d.containers d.pkgrefs comp rc.parent = true ∧ inScope d.containers d.pkgrefs comp tc.parent = true ∧
     ∀ ref ∈ refs, (rc.findAttr ref.rattr).isSome = true ∧ ∃ x, tc.findAttr ref.iattr = some x ∧ x.kept d drv = true
 
 /-- what `define_association` checks for the association(s) of one relationship -/
@@ -40,7 +40,7 @@ structure ReloadOk (u : UC) (d : ClassDiagram) (comp : Option Nat) (drv : Bool) 
   upperKls : (d.classes.map (fun c => u.upper c.kl.toList)).Nodup
   coreTypes : ∀ t ∈ d.dts, ∀ n, t.kind = .core n → 1 ≤ n → n ≤ 5 → (tyOfName u (upper t.name).toList).isSome = true
   identNums : ∀ c ∈ d.classes, (c.idents.map (·.num)).Nodup
-  rels : ∀ r ∈ d.rels, inScope d.containers comp r.parent = true → RelClosed d comp drv r
+  rels : ∀ r ∈ d.rels, inScope d.containers d.pkgrefs comp r.parent = true → RelClosed d comp drv r
   attrNames : ∀ c ∈ d.classes, attrNamesOk u ((classOf d drv c).toM.attrs) = true
   plainAttrs : ∀ c ∈ ((extract d comp drv).toMM).classes, ∀ a ∈ c.attrs, isDunder a.1 = false
   plainKeys : ∀ a ∈ ((extract d comp drv).toMM).assocs, ∀ k ∈ a.src.keys ++ a.tgt.keys, isDunder k = false
@@ -67,13 +67,13 @@ theorem typeKnown_of_attrTy {u : UC} {d : ClassDiagram} {comp : Option Nat} {drv
 
 theorem mem_toMM_classes {d : ClassDiagram} {comp : Option Nat} {drv : Bool} {cm : ClassM}
     (h : cm ∈ ((extract d comp drv).toMM).classes) :
-    ∃ c ∈ d.classes, inScope d.containers comp c.parent = true ∧ cm = (classOf d drv c).toM := by
+    ∃ c ∈ d.classes, inScope d.containers d.pkgrefs comp c.parent = true ∧ cm = (classOf d drv c).toM := by
   simp only [Schema.toMM, extract, List.mem_map] at h
   obtain ⟨s, ⟨c, hc, rfl⟩, rfl⟩ := h
   exact ⟨c, (List.mem_filter.mp hc).1, (List.mem_filter.mp hc).2, rfl⟩
 
 theorem toMM_class_mem {d : ClassDiagram} {comp : Option Nat} {drv : Bool} {c : Class} (hc : c ∈ d.classes)
-    (hs : inScope d.containers comp c.parent = true) : (classOf d drv c).toM ∈ ((extract d comp drv).toMM).classes := by
+    (hs : inScope d.containers d.pkgrefs comp c.parent = true) : (classOf d drv c).toM ∈ ((extract d comp drv).toMM).classes := by
   simp only [Schema.toMM, extract, List.mem_map]
   exact ⟨classOf d drv c, ⟨c, List.mem_filter.mpr ⟨hc, hs⟩, rfl⟩, rfl⟩
 
@@ -136,7 +136,7 @@ theorem toMM_closed {u : UC} {d : ClassDiagram} {comp : Option Nat} {drv : Bool}
   refine ⟨?_, ?_, ?_, ?_, ?_, ?_, ok.plainAttrs, ok.plainKeys⟩
   · -- distinct upper-cased kinds: a sublist of the diagram's
     have : ((extract d comp drv).toMM).classes.map (fun c => u.upper c.kind) =
-        (d.classes.filter (fun c => inScope d.containers comp c.parent)).map (fun c => u.upper c.kl.toList) := by
+        (d.classes.filter (fun c => inScope d.containers d.pkgrefs comp c.parent)).map (fun c => u.upper c.kl.toList) := by
       simp only [Schema.toMM, extract, List.map_map]
       rfl
     rw [this]
